@@ -20,7 +20,7 @@ func runC17(run *common.Run) {
 	run.Rule = "case = one generated sequential program (60-150 requests: MutateRow, MutateRows, ReadRows with row sets, limits and filter trees incl. ones that fail only on some rows, CheckAndMutateRow, ReadModifyWriteRow, SampleRowKeys, CreateTable/DeleteTable/re-create, ModifyColumnFamilies, DropRowRange prefix/all) sent request by request to three servers (btree, leveldb-mem, leveldb-disk) under the same injected clock; every response is canonicalised (status code + message, rows and cells in served order, per-entry statuses, predicate result, RMW row, table definitions; SampleRowKeys reduced to 'last key') and compared pairwise. No reference model is involved. Non-trivial = the program contained a scan that failed part-way, a limit-truncated scan, a drop/clear and a re-created table; distinct by program."
 	run.Assumptions = []string{"row-sample filters are excluded (random by design)", "SampleRowKeys picks are random by design: only the final key is compared"}
 	j := common.NewJournal("C17")
-	nprog := run.N(120, 4000)
+	nprog := run.N(400, 6000)
 	common.Parallel(nprog, workers(), func(i int) {
 		if !run.Want("prog", i) || run.TooMany() {
 			return
@@ -29,6 +29,155 @@ func runC17(run *common.Run) {
 		c17Program(run, i)
 		j.End(i % 64)
 	})
+	nbig := run.N(12, 200)
+	common.Parallel(nbig, workers(), func(i int) {
+		if !run.Want("big", i) || run.TooMany() {
+			return
+		}
+		j.Begin(i%64, fmt.Sprintf("C17 big case=%d", i))
+		c17Big(run, i)
+		j.End(i % 64)
+	})
+}
+
+// c17Big: the same comparison on tables of several hundred rows, so that engine-specific batching, early stop,
+// limit and range handling over long iterations are exercised (scans that fail on one early row, limits deep in the
+// table, ranges, prefix drops, sampling).
+func c17Big(run *common.Run, idx int) {
+	r := run.Rand("C17.big", idx)
+	var srvs []*drive.Srv
+	for _, e := range drive.Engines {
+		s, err := drive.Start(e, gen.BaseClock, "")
+		if err != nil {
+			run.Violation("big", idx, "cannot start server: "+err.Error(), nil)
+			return
+		}
+		defer s.Close(true)
+		srvs = append(srvs, s)
+	}
+	N := r.Range(300, 1500)
+	key := func(i int) string { return fmt.Sprintf("row-%04d", i) }
+	var steps []string
+	compare := func(desc string, do func(sv *drive.Srv) string) bool {
+		var outs []string
+		for _, sv := range srvs {
+			outs = append(outs, do(sv))
+		}
+		steps = append(steps, desc+" -> "+truncStr(outs[0], 200))
+		run.Count("requests_compared", 1)
+		for i := 1; i < len(outs); i++ {
+			if outs[i] != outs[0] {
+				run.Violation("big", idx, fmt.Sprintf("engines disagree on %s (table of %d rows): %s answered %s but %s answered %s", desc, N, drive.Engines[0], truncStr(outs[0], 500), drive.Engines[i], truncStr(outs[i], 500)), map[string]any{"steps": steps})
+				return false
+			}
+		}
+		return true
+	}
+	name := drive.TableName(drive.Parent, "big")
+	if !compare("CreateTable", func(sv *drive.Srv) string {
+		return drive.CreateTable(sv.Admin, drive.Parent, "big", map[string]*model.GcRule{"f1": nil, "f2": nil}).String()
+	}) {
+		return
+	}
+	for lo := 0; lo < N; lo += 400 {
+		var entries []drive.Entry
+		for i := lo; i < lo+400 && i < N; i++ {
+			muts := []model.Mut{{Kind: model.SetCell, Fam: "f1", Qual: "q", TS: 1000, Val: fmt.Sprint("v", i%7)}}
+			if i%3 == 0 {
+				muts = append(muts, model.Mut{Kind: model.SetCell, Fam: "f2", Qual: "", TS: 2000, Val: "x"})
+			}
+			entries = append(entries, drive.Entry{Key: key(i), Muts: muts})
+		}
+		if !compare("MutateRows(load)", func(sv *drive.Srv) string {
+			st, per, mal := drive.MutateRows(sv.Data, name, entries)
+			bad := 0
+			for _, p := range per {
+				if !p.OK() {
+					bad++
+				}
+			}
+			return fmt.Sprintf("%s bad=%d %s", st, bad, mal)
+		}) {
+			return
+		}
+	}
+	summarize := func(res drive.ReadResult) string {
+		// long results are compared by status, count, hash of all cells, and the first/last keys
+		if !res.OK() {
+			return fmt.Sprintf("%s|%s|rows=%d", res.Code, res.Msg, 0)
+		}
+		first, last := "", ""
+		if len(res.Rows) > 0 {
+			first, last = res.Rows[0].Key, res.Rows[len(res.Rows)-1].Key
+		}
+		return fmt.Sprintf("OK|%s|rows=%d first=%q last=%q hash=%x", res.Malformed, len(res.Rows), first, last, common.Hash64(model.RowsString(res.Rows)))
+	}
+	nsteps := r.Range(15, 30)
+	for s := 0; s < nsteps; s++ {
+		var req *btpb.ReadRowsRequest
+		desc := ""
+		switch r.Intn(8) {
+		case 0, 1: // a filter that fails only on one row somewhere in the table
+			bad := gen.Leaf(r, c12Ctx, 100)
+			for bad.Kind == "sample" {
+				bad = gen.Leaf(r, c12Ctx, 100)
+			}
+			at := r.Intn(N)
+			f := &model.Filter{Kind: "cond", Pred: &model.Filter{Kind: "rowkey", Re: model.Lit(key(at))}, T: bad, F: &model.Filter{Kind: "pass", Flag: true}}
+			req = &btpb.ReadRowsRequest{TableName: name, Filter: drive.FilterToProto(f)}
+			if r.Bool() {
+				lo := r.Intn(N)
+				req.Rows = &btpb.RowSet{RowRanges: []*btpb.RowRange{{StartKey: &btpb.RowRange_StartKeyClosed{StartKeyClosed: []byte(key(lo))}}}}
+			}
+			desc = fmt.Sprintf("ReadRows(filter failing only on %s: %s)", key(at), f)
+		case 2, 3:
+			limit := int64(common.Pick(r, []int{1, 2, 100, 255, 256, 257, 300, 512, 1024, 1025, N - 1, N}))
+			req = &btpb.ReadRowsRequest{TableName: name, RowsLimit: limit}
+			if r.Bool() {
+				req.Filter = drive.FilterToProto(&model.Filter{Kind: "value", Re: model.Lit(fmt.Sprint("v", r.Intn(7)))})
+			}
+			desc = fmt.Sprintf("ReadRows(limit=%d filter=%v)", limit, req.Filter != nil)
+		case 4, 5:
+			lo, hi := r.Intn(N), r.Intn(N)
+			if lo > hi {
+				lo, hi = hi, lo
+			}
+			req = &btpb.ReadRowsRequest{TableName: name, Rows: &btpb.RowSet{RowRanges: []*btpb.RowRange{{StartKey: &btpb.RowRange_StartKeyOpen{StartKeyOpen: []byte(key(lo))}, EndKey: &btpb.RowRange_EndKeyClosed{EndKeyClosed: []byte(key(hi))}}}, RowKeys: [][]byte{[]byte(key(r.Intn(N)))}}}
+			desc = fmt.Sprintf("ReadRows(range (%d,%d] + key)", lo, hi)
+		case 6:
+			prefix := fmt.Sprintf("row-%02d", r.Intn(N/100+1))
+			if !compare(fmt.Sprintf("DropRowRange(%q)", prefix), func(sv *drive.Srv) string {
+				c, cancel := drive.Ctx()
+				defer cancel()
+				_, err := sv.Admin.DropRowRange(c, &btapb.DropRowRangeRequest{Name: name, Target: &btapb.DropRowRangeRequest_RowKeyPrefix{RowKeyPrefix: []byte(prefix)}})
+				return drive.StatusOf(err).String()
+			}) {
+				return
+			}
+			req = &btpb.ReadRowsRequest{TableName: name}
+			desc = "ReadRows(all, after prefix drop)"
+		default:
+			if !compare("SampleRowKeys", func(sv *drive.Srv) string {
+				st, keys, _ := drive.SampleRowKeys(sv.Data, name)
+				last := ""
+				if len(keys) > 0 {
+					last = keys[len(keys)-1]
+				}
+				return fmt.Sprintf("%s last=%q", st, last)
+			}) {
+				return
+			}
+			continue
+		}
+		if !compare(desc, func(sv *drive.Srv) string { return summarize(drive.ReadRows(sv.Data, req)) }) {
+			return
+		}
+	}
+	run.Case(common.Hash64("big", fmt.Sprint(steps)), true)
+	run.Count("big_table_programs", 1)
+	if idx < 1 {
+		run.Sample(steps[len(steps)-min(len(steps), 6):])
+	}
 }
 
 func canonRows(res drive.ReadResult) string {
